@@ -131,3 +131,13 @@ Theorem C13_source_error_statuses : forall code, src_is_stale_error_allowed code
 Proof. exact tie_is_stale_error_allowed. Qed.
 Print Assumptions C13_source_decision.
 Print Assumptions C13_source_error_statuses.
+
+(* the effect trees this property is stated about — which store / origin / clock operations happen, in which order, under
+   which conditions, and what every path returns — are those /verif/translate derives from the Go source on this run
+   (Generated/SrcEffects.v; equal up to the extensional equality of continuations, ProgEq.peq, which [run] respects) *)
+From HC.Generated Require Import SrcEffects.
+From HC.Proofs Require Import ProgEq TieEffects.
+Theorem C13_source_effects :
+  (forall ctx q rep, peq (src_handle_validation_response ctx q rep) (handle_validation_response ctx q rep)).
+Proof. exact tie_handle_validation_response. Qed.
+Print Assumptions C13_source_effects.
